@@ -258,6 +258,8 @@ class Gen:
         self.calls = []            # (line, expected "i ..." answer, plan)
         self.kinds = set()
         self.avoid_complex = True
+        self.avoid = frozenset()        # keys of the reported defects that still fail (see Planner)
+        self.opts = []                  # harness options of this file (read paths that a reported defect closes today)
         self.nslab = 0
 
     # -- emission
@@ -839,7 +841,7 @@ def e_array(g, par, p):
         p.kw["dims"] = datasize(par.ctx, loc_of(par), rind_of(par))
     dims = p.kw.get("dims") or [rng.randint(1, 4) for _ in range(rng.choice([1, 1, 2, 3, 4]))]
     if p.kw.get("patch_of"):
-        dims = [rng.choice([1, par.patch])]
+        dims = [par.patch if p.kw["patch_of"] == "exact" else rng.choice([1, par.patch])]
     if not p.kw.get("dims") and not p.kw.get("patch_of") and rng.random() < 0.2:
         dims = [rng.randint(300, 1500)] if rng.random() < 0.5 else [rng.randint(20, 60), rng.randint(8, 30)]   # spans 4096-byte blocks
     data = rand_elems(rng, dt, prod(dims))
@@ -1248,7 +1250,10 @@ def e_ptset_container(fn, kind):
     """cg_sol_ptset_write / cg_discrete_ptset_write: the node, its point set, the location (if not Vertex)"""
     def f(g, par, p):
         c = par.ctx
-        loc = g.rng.choice(p.kw.get("locs") or ptset_locs(c))
+        locs = p.kw.get("locs") or ptset_locs(c)
+        if "ptset-solution-location-unreadable" in g.avoid:        # cgi_datasize knows neither (3-D) FaceCenter nor (2/3-D) EdgeCenter
+            locs = [l for l in locs if l not in (4, 8)]
+        loc = g.rng.choice(locs)
         ptype, npnts, pts, patch = rand_ptset(g, c)
         ci = g.call(fn, par, p.kw["name"], [loc, ptype, npnts] + pts, plan=p)
         n = Node(kind, p.kw["name"], "none", par)
@@ -1292,8 +1297,9 @@ for _k in ("Zone_t", "BC_t", "UserDefinedData_t"):
 
 
 class Planner:
-    def __init__(self, rng, names, big):
+    def __init__(self, rng, names, big, avoid=()):
         self.rng, self.names, self.big = rng, names, big
+        self.avoid = frozenset(avoid)           # keys of reported defects that still fail: their triggers stay out of the random files
 
     def nm(self, stem):
         return self.names.name(stem)
@@ -1394,7 +1400,9 @@ class Planner:
         for _ in range(rng.choice([0, 1, 1, 2])):
             b.kids.append(self.pzone(has_biter))
         if rng.random() < 0.3:
-            b.kids.append(self.peqset())
+            eq = self.peqset()
+            if "particle-eqset-under-base-not-written" not in self.avoid:
+                b.kids.append(eq)
         if rng.random() < 0.4:
             b.kids.append(Plan("simulation_type", e_simtype))
         if rng.random() < 0.4:
@@ -1537,7 +1545,12 @@ class Planner:
         for _ in range(rng.choice([0, 0, 1])):
             it = Plan("integral", e_integral, name=self.nm("Int"))
             it.kids += self.ctx_plans("IntegralData_t", 0, 0.5)
-            z.kids.append(it)
+            if "particle-zone-integrals-not-countable" not in self.avoid:
+                z.kids.append(it)
+        for _ in range(rng.choice([0, 0, 1, 2])):
+            mf = Plan("multifam", e_multifam, name=self.nm("AddFam"))
+            if "particle-zone-multifam-not-countable" not in self.avoid:
+                z.kids.append(mf)
         if rng.random() < 0.3:
             st = Plan("state", e_state)
             st.kids += self.ctx_plans("ReferenceState_t.ReferenceState")
@@ -1569,7 +1582,7 @@ class Planner:
         for _ in range(rng.choice([0, 0, 1])):
             d_ = Plan("discrete_ptset", e_discrete_ptset, name=self.nm("DiscP"))
             for _ in range(rng.choice([0, 1, 2])):
-                d_.kids.append(Plan("array", e_array, name=self.nm("DA"), dt=rng.choice(["R4", "R8", "I4", "I8"]), patch_of=True))
+                d_.kids.append(Plan("array", e_array, name=self.nm("DA"), dt=rng.choice(["R4", "R8", "I4", "I8"]), patch_of="exact"))
             d_.kids += self.ctx_plans("DiscreteData_t")
             z.kids.append(d_)
         z.kids += self.common_t2("Zone_t")
@@ -1721,11 +1734,18 @@ def c_after(c):
     return w
 
 
-def gen_scenario(rng, big, removed=(), avoid_complex=True):
+# read paths of the harness that a reported defect closes today: switched on (and their entities planned) once the witness of
+# the defect no longer fails
+OPT_OF_DEFECT = [("multifam-under-family-not-read-back", "multifam"),
+                 ("particle-zone-multifam-not-countable", "pzone_multifam"),
+                 ("particle-zone-integrals-not-countable", "pzone_integrals")]
+
+
+def gen_scenario(rng, big, removed=(), avoid_complex=True, avoid=()):
     """-> (Gen with calls and expected tree, list of all plans)"""
     state = rng.getstate()
     names = Names(rng)
-    pl = Planner(rng, names, big)
+    pl = Planner(rng, names, big, avoid)
     tops = [pl.base() for _ in range(rng.choice([1, 1, 2]))]
     plans = [p for t in tops for p in t.walk()]
     for i in removed:
@@ -1734,6 +1754,8 @@ def gen_scenario(rng, big, removed=(), avoid_complex=True):
     g = Gen(rng, big)
     g.names = names
     g.avoid_complex = avoid_complex
+    g.avoid = pl.avoid
+    g.opts = ["opt %s 1" % o for k, o in OPT_OF_DEFECT if k not in pl.avoid]
     g.schedule(tops)
     return g, plans, state
 
@@ -1758,7 +1780,7 @@ CONFIGS = {        # name -> (cg_configure calls before the write session, befor
 
 def impl_script(g, config, fname):
     pre, mid = CONFIGS[config]
-    lines = list(pre) + ["open w " + fname] + [c[0] for c in g.calls] + ["close"] + list(mid) + ["dump " + fname, "read " + fname]
+    lines = list(pre) + list(g.opts) + ["open w " + fname] + [c[0] for c in g.calls] + ["close"] + list(mid) + ["dump " + fname, "read " + fname]
     return "\n".join(lines) + "\n"
 
 
@@ -1776,7 +1798,7 @@ def canon_kind(path, last=0):
 def judge(g, il, outcome, config):
     """model-independent oracle.  -> list of failures (dicts with a stable 'key')"""
     fails = []
-    npre = len(CONFIGS[config][0]) + 1
+    npre = len(CONFIGS[config][0]) + len(g.opts) + 1
     nmid = len(CONFIGS[config][1])
     pre = il[:npre]
     if outcome != "ok":
@@ -1840,7 +1862,7 @@ def judge(g, il, outcome, config):
 def correspond(il, ml, g, config):
     """model vs implementation: tree dump (tie i), reader's report (tie ii), indices, acceptance"""
     divs = []
-    npre = len(CONFIGS[config][0]) + 1
+    npre = len(CONFIGS[config][0]) + len(g.opts) + 1
     ians = il[npre:npre + len(g.calls)]
     mans = ml[:len(g.calls)]
     for i, (a, b) in enumerate(zip(ians, mans)):
@@ -1877,13 +1899,13 @@ def run_case(exe, g, config, work, tag):
     return il, outcome
 
 
-def shrink(exe, rng_state, big, config, work, key, budget=60, avoid_complex=True):
+def shrink(exe, rng_state, big, config, work, key, budget=60, avoid_complex=True, avoid=()):
     """remove planned entities while the same failure key reproduces; -> (removed indices, calls)"""
     import random
     def build(removed):
         r = random.Random()
         r.setstate(rng_state)
-        g, plans, _ = gen_scenario(r, big, removed, avoid_complex)
+        g, plans, _ = gen_scenario(r, big, removed, avoid_complex, avoid)
         return g, plans
     g, plans = build(())
     removed = []
@@ -1946,6 +1968,30 @@ def witness_plans():
                 "both back ends: the entity is reported under another name than the one written (and the session mirror keeps the "
                 "written one)",
                 Plan("base", e_base, name=b" lead", cell=3, phys=3), []))
+    out.append(("particle-eqset-under-base-not-written",
+                "cg_particle_equationset_write at a CGNSBase_t position returns CG_OK without writing a node: cgi_particle_equations_address "
+                "hands the address to a local variable that shadows nothing useful (`cgns_pequations *pequations = equations; "
+                "ADDRESS4SINGLE(cgns_base, pequations, ...)`) and returns the untouched null pointer with *ier == 0; the in-memory "
+                "base->pequations (id 0) then makes every later write below it fail, and cg_particle_equationset_read at a base reports "
+                "CG_NODE_NOT_FOUND even for a file that has the node",
+                chain(base(), Plan("particle_equationset", e_peqset)), []))
+    def pzone():
+        return Plan("particle", e_particle, name=b"PZone", n=3)
+    out.append(("ptset-solution-location-unreadable",
+                "cg_sol_ptset_write / cg_discrete_ptset_write accept every location cgi_check_location allows (FaceCenter in a 3-D "
+                "base, EdgeCenter in a 2-D / 3-D base); cgi_read_sol / cgi_read_discrete call cgi_datasize for the location before "
+                "they look for the point set, and cgi_datasize fails with 'Location not yet supported': cg_open(CG_MODE_READ) of the "
+                "file fails",
+                chain(base(), uzone(), Plan("sol_ptset", e_sol_ptset, name=b"FaceSol", locs=[4])), []))
+    out.append(("particle-zone-integrals-not-countable",
+                "cg_integral_write is accepted at a ParticleZone_t position (cgi_integral_address) and cgi_read_particle loads the "
+                "IntegralData_t nodes, but cg_nintegrals knows only CGNSBase_t and Zone_t: at a particle zone it returns "
+                "CG_INCORRECT_PATH, so a reader cannot learn how many there are",
+                chain(base(), pzone(), Plan("integral", e_integral, name=b"Int")), ["opt pzone_integrals 1"]))
+    out.append(("particle-zone-multifam-not-countable",
+                "cg_multifam_write is accepted at a ParticleZone_t position (cgi_multfam_address) and cgi_read_particle loads the "
+                "AdditionalFamilyName_t nodes, but cg_nmultifam refuses a ParticleZone_t position (CG_INCORRECT_PATH)",
+                chain(base(), pzone(), Plan("multifam", e_multifam, name=b"Add")), ["opt pzone_multifam 1"]))
     return out
 
 
@@ -1957,17 +2003,16 @@ def run_witnesses(ck, exe, work):
         for cf in ("adf", "hdf5"):
             g = Gen(random.Random(7), False)
             g.avoid_complex = False
+            g.opts = list(extra)
             g.schedule([top])
-            pre, mid = CONFIGS[cf]
             fname = "c01_w_%s_%s.cgns" % (key[:20], cf)
-            script = "\n".join(list(pre) + extra + ["open w " + fname] + [c[0] for c in g.calls] + ["close", "dump " + fname, "read " + fname]) + "\n"
+            script = impl_script(g, cf, fname)
             il, outcome = vlib.run_impl(exe, script, cwd=work, timeout=120)
             try:
                 os.unlink(os.path.join(work, fname))
             except OSError:
                 pass
-            il2 = [l for i, l in enumerate(il) if not (len(pre) <= i < len(pre) + len(extra))]      # drop the answers to the extra lines
-            fs = judge(g, il2, outcome, cf)
+            fs = judge(g, il, outcome, cf)
             if fs and all(f["key"].startswith("write-call-failed") for f in fs):
                 fs = []              # the call is refused cleanly: nothing was written that could get lost
             ck.cov["evaluations"] += 1
@@ -1977,12 +2022,14 @@ def run_witnesses(ck, exe, work):
     return active
 
 
-UNMODELLED = ["particle zones / coordinates / solutions (ParticleZone_t ...)", "zone sub-regions (ZoneSubRegion_t)",
-              "BCProperty_t / WallFunction_t / Area_t", "GridConnectivityProperty_t / Periodic_t / AverageInterface_t",
-              "equation-set model nodes (GasModel_t ..., ThermalRelaxationModel_t ...), DiffusionModel",
-              "FamilyBCDataSet_t, nested Family_t (family tree), AdditionalFamilyName_t",
-              "point-set solutions / discrete data (cg_sol_ptset_write, cg_discrete_ptset_write)",
-              "partial / general writes (cg_*_partial_write, cg_*_general_write: property C05/C06/C10)",
+UNMODELLED = ["family-tree writers below a nested Family_t (cg_node_fambc_write, cg_node_geo_write, cg_node_part_write, "
+              "cg_node_family_name_write); nested Family_t nodes themselves (cg_node_family_write) are modelled",
+              "bounding boxes stored in the payload of GridCoordinates_t / ParticleCoordinates_t (cg_grid_bounding_box_write, "
+              "cg_particle_bounding_box_write)",
+              "further ZoneGridConnectivity_t nodes (cg_zconn_write / cg_zconn_set), cg_conn_write_short",
+              "cg_ptset_write / cg_ptset_read at a ParticleSolution_t position (the particle API cg_particle_sol_ptset_* is used)",
+              "partial / general writes as entities of their own (cg_*_partial_write, cg_*_general_write: property C05/C06/C10; "
+              "here they only serve as a second way to produce the same array)",
               "links (cg_link_write: property C08)", "modify-mode overwrite and deletion (property C04)",
               "32-bit cgsize_t build and cross-build files"]
 
@@ -2059,6 +2106,14 @@ def run(ck):
                       "blocks at every alignment.  "
                       "Tranche 2: discrete data, integral data, reference state, convergence history, rigid / arbitrary grid motion, base / zone "
                       "iterative data, simulation type, gravity, axisymmetry, rotating coordinates, equation set + governing equations.  "
+                      "Tranche 3: particle zones (coordinates nodes and arrays, whole / point-set solutions and fields, iterative data, "
+                      "equation set + governing equations + the five particle models, integral data, reference state), zone sub-regions "
+                      "(point set / BC name / connectivity name, + location, rind, arrays), BC properties (wall function, area), "
+                      "connectivity properties under 1to1 and general connectivities (periodic, average interface), the ten equation-set "
+                      "models + diffusion model, FamilyBCDataSet_t + BCData, nested Family_t, AdditionalFamilyName_t under zone / BC / "
+                      "sub-region / user data, point-set flow solutions and discrete data at every location cgi_check_location allows.  "
+                      "Entities whose read path a reported, still failing defect closes are left out of the random files and come back by "
+                      "themselves once the defect's witness passes (the harness option that opens the read path is then switched on).  "
                       "The first file of a run is written and read on ADF, HDF5 and four HDF5 configurations made through cg_configure (core "
                       "VFD read back through the core VFD and through the default driver, alignment + metadata block size, buffer / sieve "
                       "sizes), the others on ADF and HDF5 (thorough: all six for every file).  "
@@ -2070,6 +2125,7 @@ def run(ck):
     for key, wit in sorted(active.items()):
         ck.finding(key, {"oracle": ORACLE, "witness": wit, "replay_hint": ".build/h/c01_rt < script (one command per line)"})
     avoid_complex = "complex-array-unreadable" in active or "complex-array-children-lost" in active
+    avoid = frozenset(active)
     nsc = 60 if big else 3
     configs_all = list(CONFIGS)
     dist = {"files": 0, "calls": 0, "entities": 0, "functions": set(), "kinds": set(), "configs": {}}
@@ -2079,7 +2135,7 @@ def run(ck):
     def one(j, label, configs):
         import random
         rng = random.Random(ck.rng.getrandbits(64))
-        g, plans, state = gen_scenario(rng, big, avoid_complex=avoid_complex)
+        g, plans, state = gen_scenario(rng, big, avoid_complex=avoid_complex, avoid=avoid)
         ml = vlib.run_model("c01", model_script(g)) if engine_ok else None
         exp = expected_lines(g.root)
         dist["calls"] += len(g.calls)
@@ -2126,7 +2182,7 @@ def run(ck):
             break
         wit = {"failure": w["failure"], "config": w["config"]}
         try:
-            removed, g2 = shrink(exe, w["state"], big, w["config"], ck.work, key, budget=40 if n_rep < 3 else 0, avoid_complex=avoid_complex) \
+            removed, g2 = shrink(exe, w["state"], big, w["config"], ck.work, key, budget=40 if n_rep < 3 else 0, avoid_complex=avoid_complex, avoid=avoid) \
                 if key != "backend-disagree" else ([], None)
             if g2 is not None:
                 wit["script"] = impl_script(g2, w["config"], "replay.cgns").split("\n")
